@@ -711,6 +711,25 @@ def argument_rule_case():
     return None
 
 
+def empty_rule_case():
+    """the rule without any constraint (the text a client sends for addMatch(callback) alone is empty) matches every broadcast"""
+    from txdbus import message
+    net = Net()
+    a, b = net.connect(), net.connect()
+    try:
+        r = b.call_bus('AddMatch', 's', [''])
+    except Exception as e:
+        return 'AddMatch with the empty rule text made the bus raise %s: %s' % (type(e).__name__, e)
+    if getattr(r, 'error_name', None):
+        return 'AddMatch with the empty rule text was refused: %s' % r.error_name
+    b.drain()
+    a.send(message.SignalMessage('/o', 'Any', 'org.e.I', signature='s', body=['x']))
+    got = [x.member for x in b.drain() if getattr(x, 'member', None) == 'Any']
+    if got != ['Any']:
+        return 'a connection holding the rule without constraints received %r of a broadcast' % (got,)
+    return None
+
+
 def to_the_bus_case():
     """messages of every type addressed to the bus itself are not forwarded - not even to a connection that asked for the bus's name"""
     from txdbus import message
@@ -844,7 +863,7 @@ def takeover_by_waiter_case():
 
 def bounded(tier, seed):
     n = 0
-    for case in (late_loss_of_refused_connection_case, order_case, prehello_case, dead_subscriber_case, takeover_case, namespace_subscription_case, forged_wellknown_sender_case, sender_rule_case, spaced_rule_text_case, argument_rule_case, to_the_bus_case, big_endian_client_case, withdrawn_claim_case, takeover_by_waiter_case):
+    for case in (late_loss_of_refused_connection_case, order_case, prehello_case, dead_subscriber_case, takeover_case, namespace_subscription_case, forged_wellknown_sender_case, sender_rule_case, spaced_rule_text_case, argument_rule_case, empty_rule_case, to_the_bus_case, big_endian_client_case, withdrawn_claim_case, takeover_by_waiter_case):
         n += 1
         try:
             f = case()
